@@ -96,6 +96,21 @@ MAZES = {
              "XOX XOX",
              "XS   SX",
              "XXX XXX"],
+    # 12 rows x 11 columns: a chimney (column 4, rows 0-2 and 10-11) that leaves the board at the top and comes back at the
+    # bottom, with no junction on the way; the player waits at the top of a dead end next to it, so a chasing ghost that
+    # stands below the chimney climbs it and goes round the board VERTICALLY
+    "chimney": ["XXXX XXPXXX",
+                "XXXX XX XXX",
+                "XXXX XX XXX",
+                "XS OG    SX",
+                "X XX X XX X",
+                "X T G G T X",
+                "X XX X XX X",
+                "XGT  O  T X",
+                "X XX X XX X",
+                "XS O   O SX",
+                "XXXX XXXXXX",
+                "XXXX XXXXXX"],
     # a free cell on the right border whose opposite border cell is a wall (row 2), and the same vertically
     # (column 5: free in the bottom border, wall in the top border): not tunnels, the wrap target is a wall
     "halfopen": ["XXXXXXXXX",
@@ -206,6 +221,7 @@ class Adapter(EnvAdapter):
                 _c("default_t7", "default", 7, episodes=2, max_steps=10, policies=["explore", "random"]),
                 _c("mini_tnone", "mini", None, episodes=6, max_steps=60, policies=POL),
                 _c("tall_t3", "tall", 3, episodes=4, max_steps=6, policies=POL),
+                _c("chimney_tnone", "chimney", None, episodes=2, max_steps=16, policies=["idle", "explore"]),
                 _c("halfopen_tnone", "halfopen", None, episodes=4, max_steps=30, policies=["border", "explore", "random"]),
                 _c("sealed_t1", "sealed", 1, episodes=3, max_steps=4, policies=POL),
                 _c("sealed_t2", "sealed", 2, episodes=3, max_steps=5, policies=POL),
@@ -218,6 +234,7 @@ class Adapter(EnvAdapter):
                   policies=["dive", "explore", "random", "mostly_masked", "border", "masked"])]
         for tl in (1, 2, 3, 7):
             out.append(_c(f"default_t{tl}", "default", tl, episodes=4, max_steps=tl + 3, policies=POL))
+        out.append(_c("chimney_tnone", "chimney", None, episodes=8, max_steps=40, policies=["idle", "explore", "idle", "random"]))
         for mz in ("mini", "tall", "halfopen", "sealed"):
             for tl in (1, 2, 3, 7, None):
                 pol = ["border"] + POL if mz == "halfopen" else POL
@@ -321,6 +338,8 @@ class Adapter(EnvAdapter):
 
     def choose(self, policy, env, state, obs, rng, i):
         dt = env.action_spec.dtype
+        if policy == "idle":         # the player never moves (the ghosts come to it)
+            return np.asarray(4, dtype=dt)
         if policy == "explore":
             # keep walking (prefer not to turn back), sometimes bump into a wall or play the no-op
             grid, p, ok = self._moves(state)
